@@ -50,6 +50,12 @@ def utils_documents(max_leaves=12, min_leaves=1, wide=True):
         docs.append(st.tuples(st.integers(28, 64), leaves).map(lambda t: ["A", [t[1] if i % 5 else ["A", [["N", float(i)]]] for i in range(t[0])]]))
         # arrays long enough that every single byte, read as "byte - '0'", would alias an existing element (0xFF - 0x30 = 207)
         docs.append(st.tuples(st.sampled_from([80, 130, 210, 260]), leaves).map(lambda t: ["O", [[b"v", ["A", [["N", float(i)] if i % 7 else t[1] for i in range(t[0])]]]]]))
+        # one member for every byte value 1..255 as a one-byte name, and names with a byte >= 0x80 next to '/', '~' and letters:
+        # whatever a name's bytes are, only '~' and '/' are escaped and every other byte stands for itself
+        allbytes = ["O", [[bytes([c]), ["N", float(c)]] for c in range(1, 256)]]
+        mixed = ["O", [[k, ["A", [["N", float(i)], ["O", [[bytes([0x80 + (37 * i) % 128]) + b"x", ["t"]]]]]]] for i, k in enumerate(
+            [b"na\xc3\xafve", b"\xaf", b"\xfe", b"\xaf/", b"~\xfe", b"\xc3\xbe~", b"a\xaf", b"\xafa", b"\xfe0", b"\xe2\x82\xac", b"\xae", b"\xb0", b"\xfd", b"\xff/\xff"])]]
+        docs.append(st.sampled_from([allbytes, mixed]))
     return st.one_of(*docs)
 
 
